@@ -54,6 +54,19 @@ type Spec struct {
 	RealDial  bool     `json:"real_dial"`
 	Handler   bool     `json:"handler"`
 	MITM      bool     `json:"mitm"`
+	AltCreds  bool     `json:"alt_creds"` // this proxy is configured with the OTHER credentials (two proxies in one process)
+}
+
+const (
+	altUser = "userb"
+	altPass = "passb"
+)
+
+func (s Spec) creds() (string, string) {
+	if s.AltCreds {
+		return altUser, altPass
+	}
+	return authUser, authPass
 }
 
 var denyRules = []string{`evil\.test$`, `^blocked\.`, `-^ok\.evil\.test$`}
@@ -100,7 +113,8 @@ func buildMatcher(rules []string) (forwarder.Matcher, error) {
 func (s Spec) proxySpec(rig *accessrig.Rig, seen map[string]bool) (accessrig.ProxySpec, forwarder.Matcher, error) {
 	ps := accessrig.ProxySpec{Name: proxyName, DenyLocal: s.DenyLocal, RealDial: s.RealDial, Handler: s.Handler, MITM: s.MITM}
 	if s.Auth {
-		ps.Basic = url.UserPassword(authUser, authPass)
+		u, p := s.creds()
+		ps.Basic = url.UserPassword(u, p)
 	}
 	var m forwarder.Matcher
 	if s.DenyRules != nil {
@@ -342,7 +356,8 @@ func coqIDNA(table map[string]string) string {
 func coqConfig(s Spec, denied []string, aliases []string, idnaTable map[string]string) string {
 	basic := "None"
 	if s.Auth {
-		basic = fmt.Sprintf("(Some (%s, %s))", coqfmt.Str(authUser), coqfmt.Str(authPass))
+		u, p := s.creds()
+		basic = fmt.Sprintf("(Some (%s, %s))", coqfmt.Str(u), coqfmt.Str(p))
 	}
 	deny := "None"
 	if s.DenyRules != nil {
@@ -353,16 +368,17 @@ func coqConfig(s Spec, denied []string, aliases []string, idnaTable map[string]s
 }
 
 type Case struct {
-	Spec    Spec               `json:"spec"`
-	Clock   [3]int             `json:"clock"`
+	Spec  Spec   `json:"spec"`
+	Clock [3]int `json:"clock"`
 	// the session that ran on the same proxy at the previous clock value (history: needed to replay
 	// a verdict that depends on what the proxy saw before)
+	PrevSpec    *Spec              `json:"prev_spec,omitempty"` // the previous session ran on ANOTHER proxy of the same process (kept running)
 	PrevClock   *[3]int            `json:"prev_clock,omitempty"`
 	PrevSession []accessrig.RawReq `json:"prev_session,omitempty"`
-	Session []accessrig.RawReq `json:"session"`
-	Index   int                `json:"index"`
-	Req     ReqSpec            `json:"req"`
-	Obs     accessrig.Obs      `json:"obs"`
+	Session     []accessrig.RawReq `json:"session"`
+	Index       int                `json:"index"`
+	Req         ReqSpec            `json:"req"`
+	Obs         accessrig.Obs      `json:"obs"`
 	// MITM sessions: Connect is the CONNECT that opened the tunnel, Session the requests sent inside the TLS
 	// session; Index -1 denotes the CONNECT itself
 	Connect *accessrig.RawReq `json:"connect,omitempty"`
@@ -814,6 +830,7 @@ func main() {
 		creq    ReqSpec
 	}
 	var jobs []job
+	var replayPair *Case
 	if *replay != "" {
 		data, err := os.ReadFile(*replay)
 		if err != nil {
@@ -827,10 +844,14 @@ func main() {
 			fmt.Println("replay: no session in the replay file (pure-function cases are replayed by the full run)")
 			os.Exit(3)
 		}
-		if c.PrevClock != nil && len(c.PrevSession) > 0 {
+		if c.PrevSpec != nil {
+			replayPair = &c
+		} else if c.PrevClock != nil && len(c.PrevSession) > 0 {
 			jobs = append(jobs, job{spec: c.Spec, clock: *c.PrevClock, session: c.PrevSession, reqs: make([]ReqSpec, len(c.PrevSession))})
 		}
-		jobs = append(jobs, job{spec: c.Spec, clock: c.Clock, session: c.Session, reqs: make([]ReqSpec, len(c.Session)), connect: c.Connect})
+		if c.PrevSpec == nil {
+			jobs = append(jobs, job{spec: c.Spec, clock: c.Clock, session: c.Session, reqs: make([]ReqSpec, len(c.Session)), connect: c.Connect})
+		}
 	} else {
 		budget := 70
 		tfBudget := 12
@@ -910,7 +931,7 @@ func main() {
 	// run: one proxy per configuration; the clock moves on between sessions
 	var cases []Case
 	denied := map[int]map[string]bool{} // spec id -> hostnames the deny matcher matches
-	idnaTable := map[string]string{}     // non-ASCII host name -> what idna.Lookup.ToASCII maps it to
+	idnaTable := map[string]string{}    // non-ASCII host name -> what idna.Lookup.ToASCII maps it to
 	specByID := map[int]Spec{}
 	curID := -1
 	var cur *accessrig.Proxy
@@ -1032,6 +1053,86 @@ func main() {
 		}
 	}
 	stop()
+
+	// ---- two proxies with DIFFERENT credentials alive in one process: what one accepted must not open the other
+	{
+		pairCase := func(spec Spec, prevSpec *Spec, prevSession, session []accessrig.RawReq, reqs []ReqSpec, p *accessrig.Proxy) {
+			obs := rig.Session(p, session)
+			m.Sessions++
+			for i, o := range obs {
+				c := Case{Spec: spec, Clock: clocks[0], Session: session, Index: i, Req: reqs[i], Obs: o, Targets: targetsOf(o, rig.UpstreamAddr())}
+				if prevSpec != nil {
+					ps := *prevSpec
+					c.PrevSpec, c.PrevSession = &ps, prevSession
+				}
+				cases = append(cases, c)
+				m.Exchanges++
+				m.ByStatus[fmt.Sprint(o.Status)]++
+				m.ByPos["two-proxies-in-one-process"]++
+				if o.FromPeer != "" {
+					m.Forwarded++
+				} else if o.Status == 407 {
+					m.Refused++
+				}
+			}
+		}
+		start := func(spec Spec) *accessrig.Proxy {
+			ps, _, err := spec.proxySpec(rig, nil)
+			if err != nil {
+				panic(err)
+			}
+			p, err := rig.StartProxy(ps)
+			if err != nil {
+				panic(err)
+			}
+			specByID[spec.ID] = spec
+			if denied[spec.ID] == nil {
+				denied[spec.ID] = map[string]bool{}
+			}
+			return p
+		}
+		now = clockTime(clocks[0][0], clocks[0][1], clocks[0][2])
+		if replayPair != nil {
+			c := replayPair
+			pp, p := start(*c.PrevSpec), start(c.Spec)
+			rig.Session(pp, c.PrevSession)
+			pairCase(c.Spec, c.PrevSpec, c.PrevSession, c.Session, make([]ReqSpec, len(c.Session)), p)
+			pp.Stop()
+			p.Stop()
+		} else if *replay == "" {
+			credLine := func(u, p string) [][2]string {
+				return [][2]string{{"Proxy-Authorization", "Basic " + b64(u+":"+p)}}
+			}
+			mkReqs := func(u, p, tag string) ([]accessrig.RawReq, []ReqSpec) {
+				qs := []ReqSpec{
+					{Method: "GET", Host: "example.test", Form: "absolute", Version: "1.1", Headers: credLine(u, p), CredTag: tag, HostTag: "plain"},
+					{Method: "CONNECT", Host: "example.test:443", Form: "authority", Version: "1.1", Headers: credLine(u, p), CredTag: tag, HostTag: "plain"},
+					{Method: "POST", Host: "www.example.test:8080", Form: "absolute", Version: "1.1", Headers: credLine(u, p), CredTag: tag, HostTag: "plain-sub"},
+				}
+				var raws []accessrig.RawReq
+				for _, q := range qs {
+					raws = append(raws, q.raw())
+				}
+				return raws, qs
+			}
+			for round, up := range []bool{false, true} {
+				sa := Spec{ID: 900 + 2*round, Auth: true, Upstream: up}
+				sb := Spec{ID: 901 + 2*round, Auth: true, AltCreds: true, Upstream: up}
+				pa, pb := start(sa), start(sb)
+				aRaw, aReq := mkReqs(authUser, authPass, "exact")
+				aAtB, aAtBReq := mkReqs(authUser, authPass, "other-proxys-credentials")
+				bRaw, bReq := mkReqs(altUser, altPass, "exact")
+				bAtA, bAtAReq := mkReqs(altUser, altPass, "other-proxys-credentials")
+				pairCase(sa, nil, nil, aRaw, aReq, pa)             // A accepts its own credentials
+				pairCase(sb, &sa, aRaw, aAtB, aAtBReq, pb)         // the same header at B: 407, nothing dialled
+				pairCase(sb, nil, nil, bRaw, bReq, pb)             // B accepts its own
+				pairCase(sa, &sb, bRaw, bAtA, bAtAReq, pa)         // B's at A: 407
+				pairCase(sb, &sa, aRaw, aAtB[:1], aAtBReq[:1], pb) // and once more after both have accepted something
+				pa.Stop()
+				pb.Stop()
+			}
+		}
+	}
 	// quiescence: nothing may be dialled after the last response was read
 	mark := rig.Mark()
 	time.Sleep(150 * time.Millisecond)
